@@ -9,6 +9,7 @@ CONSTANTS
   MaxObjs = 1
   Parents = {"none"}
   Fmts = {"F1", "F2"}
+  SecondReport = FALSE
   Variant = "pin_inherited"
 INVARIANT ExactlyOnce
 INVARIANT RightList
